@@ -40,11 +40,16 @@ func SchOf(index am.S) SchJ {
 
 // Cmd is one navigation / filter command.
 type Cmd struct {
-	Op   string `json:"op"` // fwd back scroll toggle tail
+	Op   string `json:"op"` // fwd back scroll scrollid toggle tail
 	K    int    `json:"k"`
 	Tool string `json:"tool,omitempty"`
-	// ById: scroll by transition id instead of cursor position
+	// ById: scroll by transition id instead of cursor position (the id of the
+	// K-th record HELD by the debugger)
 	ById bool `json:"byid,omitempty"`
+	// Id (op scrollid): jump to this transition id, whether its record has been
+	// ingested already or not; K is the 1-based position of the id in the whole
+	// stream of the source (0: the id never arrives)
+	Id string `json:"id,omitempty"`
 }
 
 var toolOf = map[string]types.ToolName{
@@ -90,6 +95,20 @@ func (s *Session) guarded(fn func() error) (err error, hung bool) {
 	ch := make(chan error, 1)
 	go func() { ch <- fn() }()
 	t0 := time.Now()
+	if os.Getenv("DBGDRV_SLOWDUMP") != "" {
+		// development aid: where is a command that takes more than 1.5s?
+		done := make(chan struct{})
+		defer close(done)
+		go func() {
+			select {
+			case <-done:
+			case <-time.After(1500 * time.Millisecond):
+				buf := make([]byte, 1<<22)
+				buf = buf[:runtime.Stack(buf, true)]
+				os.Stderr.Write(buf)
+			}
+		}()
+	}
 	for {
 		select {
 		case err := <-ch:
@@ -298,6 +317,9 @@ func (s *Session) Do(c Cmd) error {
 	d := s.H.D
 	var res am.Result
 	var v *View
+	// did the ScrollToTx handler run during this command? (a jump is only judged
+	// when the debugger machine executed it)
+	scrollTick := d.Mach.Tick(ss.ScrollToTx)
 	err, hung := s.guarded(func() error {
 		t0 := time.Now()
 		switch c.Op {
@@ -319,6 +341,11 @@ func (s *Session) Do(c Cmd) error {
 				}
 			}
 			res = d.Mach.Add1(ss.ScrollToTx, debugger.Pass(a))
+		case "scrollid":
+			if c.Id == "" {
+				return fmt.Errorf("scrollid without an id")
+			}
+			res = d.Mach.Add1(ss.ScrollToTx, debugger.Pass(&types.A{TxId: c.Id}))
 		case "toggle":
 			res = d.Mach.Add1(ss.ToggleTool, debugger.Pass(&types.A{ToolName: toolOf[c.Tool]}))
 		case "tail":
@@ -349,7 +376,24 @@ func (s *Session) Do(c Cmd) error {
 		return err
 	}
 	s.lastView = v
-	s.Lines = append(s.Lines, map[string]any{"ev": "cmd", "cmd": c, "res": resStr(res), "view": v})
+	line := map[string]any{"ev": "cmd", "cmd": c, "res": resStr(res), "view": v}
+	if c.Op == "scrollid" {
+		// what the look-up by transition id answers now (on the handler goroutine)
+		txidx := -2
+		if err := s.H.Eval("txidx", func() {
+			if cl := d.Clients[s.id]; cl != nil {
+				txidx = cl.TxIndex(c.Id)
+			}
+		}); err != nil {
+			return err
+		}
+		if txidx == -2 {
+			return fmt.Errorf("client %s vanished", s.id)
+		}
+		line["txidx"] = txidx
+		line["ran"] = d.Mach.Tick(ss.ScrollToTx) > scrollTick
+	}
+	s.Lines = append(s.Lines, line)
 	return nil
 }
 
